@@ -185,6 +185,12 @@ def run_check(pid, tier, seed, jobs, replay=None):
         with ctx.Pool(jobs) as pool:
             for st in pool.imap(_worker, chunks):
                 total.merge(st)
+    if hasattr(mod, "run_main"):
+        # parts that manage their own worker pool (level-synchronous parallel BFS)
+        try:
+            mod.run_main(tier, seed, jobs, total)
+        except simenv.HarnessError as e:
+            total.count("HARNESS:" + str(e)[:300])
     harness = [k for k in total.counters if k.startswith("HARNESS:")]
     if not harness and hasattr(mod, "finish"):
         try:
